@@ -162,15 +162,164 @@ def drive_kind(args):
     return cases
 
 
+# ---------------------------------------------------------------------------------------------------
+# the whole floating-point range on powers of two (spec/Binade.tla)
+
+FMT = {'float64': {'emin': -1074, 'emax': 1023, 'mant': 53}, 'float32': {'emin': -149, 'emax': 127, 'mant': 24}}
+EXPS = {'float64': [-1074, -1073, -1023, -1022, -1021, -600, -54, -53, -52, -2, -1, 0, 1, 2, 52, 53, 54, 600, 1021, 1022, 1023],
+        'float32': [-149, -148, -127, -126, -125, -60, -25, -24, -23, -2, -1, 0, 1, 2, 23, 24, 25, 60, 125, 126, 127]}
+Z_ = {'k': 'z', 's': 1, 'e': 0, 'p': False}
+
+
+def bn_of(v):
+    """sign / binade / exact-power-of-two of a float, by frexp (exact, subnormals included)"""
+    v = float(v)
+    if math.isnan(v):
+        return {'k': 'nan', 's': 1, 'e': 0, 'p': False}
+    if math.isinf(v):
+        return {'k': 'inf', 's': 1 if v > 0 else -1, 'e': 0, 'p': False}
+    if v == 0.0:
+        return dict(Z_)
+    m, p = math.frexp(abs(v))
+    return {'k': 'b', 's': 1 if v > 0 else -1, 'e': p - 1, 'p': m == 0.5}
+
+
+def bn_float(b):
+    if b['k'] == 'z':
+        return 0.0
+    if b['k'] == 'inf':
+        return math.inf * b['s']
+    return b['s'] * math.ldexp(1.0, b['e'])
+
+
+def drive_binade(args):
+    fam, dtname = args
+    import torch
+    dtype = getattr(torch, dtname)
+    f = FMT[dtname]
+    sr = {'real': AG.semiring_for('real', dtype), 'log': AG.semiring_for('log', dtype), 'vit': AG.semiring_for('mp', dtype)}[fam]
+    T = lambda b: torch.tensor(bn_float(b), dtype=dtype)
+    P = lambda s, e: {'k': 'b', 's': s, 'e': e, 'p': True}
+    INFp, INFm = {'k': 'inf', 's': 1, 'e': 0, 'p': False}, {'k': 'inf', 's': -1, 'e': 0, 'p': False}
+    E = EXPS[dtname]
+    if fam == 'real':
+        pts = [dict(Z_), INFp] + [P(1, e) for e in E]
+        zero, one = dict(Z_), P(1, 0)
+    else:
+        pts = [dict(Z_), INFp, INFm] + [P(s, e) for e in E for s in (1, -1)]
+        zero, one = INFm, dict(Z_)
+    cases = []
+
+    def case(op, x=Z_, y=Z_, z=Z_, n=0):
+        return {'kind': 'bn', 'sr': 'nat', 'fam': fam, 'f': f, 'op': op, 'x': x, 'y': y, 'z': z, 'n': n, 'r': dict(Z_), 'r2': dict(Z_), 'eq': False,
+                'rmilli': 0, 'out': 'ok', 'tag': [fam, dtname, 'binade', op]}
+
+    def run(c, fn):
+        try:
+            fn(c)
+        except Exception as e:  # noqa
+            c['out'] = 'raise:' + type(e).__name__
+        cases.append(c)
+    for x in pts:
+        for y in pts:
+            def f_mul(c, x=x, y=y):
+                c['r'] = bn_of(sr.mul(T(x), T(y)).item())
+            run(case('mul', x, y), f_mul)
+
+            def f_add(c, x=x, y=y):
+                c['r'], c['r2'] = bn_of(sr.add(T(x), T(y)).item()), bn_of(sr.add(T(y), T(x)).item())
+            run(case('add', x, y), f_add)
+        def f_id(c, x=x):
+            c['r'], c['r2'] = bn_of(sr.add(T(x), sr.from_int(0)).item()), bn_of(sr.mul(T(x), sr.from_int(1)).item())
+        run(case('ident', x), f_id)
+
+        def f_an(c, x=x):
+            c['r'], c['r2'] = bn_of(sr.mul(T(x), sr.from_int(0)).item()), bn_of(sr.mul(sr.from_int(0), T(x)).item())
+        run(case('annih', x), f_an)
+
+        def f_star(c, x=x):
+            c['r'] = bn_of(sr.star(T(x)).item())
+        run(case('star', x), f_star)
+    rng = rng_for(0, 'c08bn' + fam + dtname)
+    fin = [p for p in pts if p['k'] == 'b']
+    for _ in range(400):
+        x, y, z = rng.choice(pts), rng.choice(pts), rng.choice(pts)
+
+        def f_as(c, x=x, y=y, z=z):
+            c['r'], c['r2'] = bn_of(sr.mul(sr.mul(T(x), T(y)), T(z)).item()), bn_of(sr.mul(T(x), sr.mul(T(y), T(z))).item())
+        run(case('mul_comm_assoc', x, y, z), f_as)
+    if fam != 'real':
+        # triples whose log-values add without any rounding: (2^e, 2^e, 2^(e+1)), (2^e, -2^e, any), with zero / infinite mixed in
+        for e in E:
+            if e + 2 > f['emax']:
+                continue
+            for s in (1, -1):
+                for (x, y, z) in ((P(s, e), P(s, e), P(s, e + 1)), (P(s, e + 1), P(s, e), P(s, e)), (P(s, e), P(-s, e), P(s, e + 1)),
+                                  (P(s, e), P(s, e), INFm), (INFp, P(s, e), P(-s, e)), (P(s, e), dict(Z_), P(s, e))):
+                    def f_as2(c, x=x, y=y, z=z):
+                        c['r'], c['r2'] = bn_of(sr.mul(sr.mul(T(x), T(y)), T(z)).item()), bn_of(sr.mul(T(x), sr.mul(T(y), T(z))).item())
+                    run(case('mul_comm_assoc', x, y, z), f_as2)
+    if fam == 'real':
+        for _ in range(400):
+            x = rng.choice(fin)
+            ey = rng.choice(E)
+            y, z = P(1, ey), P(1, max(f['emin'], min(f['emax'], ey + rng.choice([-3, -1, 0, 1, 2, 10, f['mant'] - 2]))))
+
+            def f_di(c, x=x, y=y, z=z):
+                l = sr.mul(T(x), sr.add(T(y), T(z)))
+                r = sr.add(sr.mul(T(x), T(y)), sr.mul(T(x), T(z)))
+                c['r'], c['r2'], c['eq'] = bn_of(l.item()), bn_of(r.item()), bool(l.item() == r.item())
+            run(case('distrib', x, y, z), f_di)
+        for x in fin:
+            for y in fin:
+                if y['e'] <= x['e']:
+                    def f_sub(c, x=x, y=y):
+                        c['r'] = bn_of(sr.add(sr.sub(T(x), T(y)), T(y)).item())
+                    run(case('sub', x, y), f_sub)
+        # star just below the radius of convergence: x = 1 - 2^-k is a float for k <= mantissa
+        for k in range(1, f['mant'] + 1):
+            def f_so(c, k=k):
+                x = torch.tensor(1.0, dtype=dtype) - torch.tensor(math.ldexp(1.0, -k), dtype=dtype)
+                if not (float(x) < 1.0):
+                    raise MachineryFailure('1 - 2^-k is not below 1')
+                c['r'] = bn_of(sr.star(x).item())
+            run(case('star_om', n=k), f_so)
+    if fam == 'log':
+        # star at the log-value x with exp(x) = 1 - 2^-k, down to the smallest subnormal: k ln 2
+        for k in [1, 2, 3, 5, 8, 12, 16, 20, 23, 24, 25, 30, 40, 50, 52, 53, 54, 60, 100, 126, 127, 140, 149] + \
+                 ([200, 500, 1000, 1022, 1023, 1050, 1074] if dtname == 'float64' else []):
+            if -k < f['emin']:
+                continue
+
+            def f_sl(c, k=k):
+                xv = math.log1p(-math.ldexp(1.0, -k))          # correctly rounded double; then to the format
+                x = torch.tensor(xv, dtype=dtype)
+                if float(x) == 0.0:
+                    raise MachineryFailure('log1p(-2^-k) underflowed')
+                # in float32 the rounding of x itself moves exp(x): expected value from the float actually used
+                kk = -math.log2(-math.expm1(float(x)))
+                c['n'] = k if abs(kk - k) < 1e-6 else -1
+                c['rmilli'] = int(round(1000 * float(sr.star(x).item()))) if math.isfinite(float(sr.star(x).item())) else 2000000000
+            c = case('star_om', n=k)
+            run(c, f_sl)
+            if c['n'] == -1:
+                cases.pop()
+    return cases
+
+
 def run(tier, seed):
     o = Outcome(PID, tier, seed)
     o.assumptions = ['carrier = exact sub-carrier of each semiring (small naturals, integer log-weights, +-inf, booleans) plus quarters for star; "every finite float incl. subnormals" is outside a TLC model (see DESIGN.md section 4)',
                      'Log-semiring values are compared through exp with 1e-4 (float32) / 1e-9 (float64) relative tolerance']
     with Scratch() as work:
-        r = run_tlc(work / 'r3', 'MC_Semiring', 'INIT Init\nNEXT Next\nINVARIANT Laws\nCHECK_DEADLOCK FALSE\n', workers=1)
+        r = run_tlc(work / 'r3', 'MC_Semiring', 'INIT Init\nNEXT Next\nINVARIANT Laws\nINVARIANT StarOm\nINVARIANT BnMulLaws\nCHECK_DEADLOCK FALSE\n', workers=1)
         o.add_tlc(r)
         combos = [(k, d) for k in ('real', 'log', 'mp') for d in ('float64', 'float32')] + [('bool', 'bool')]
         cases = [c for cs in pmap(drive_kind, combos, procs=len(combos), chunksize=1) for c in cs]
+        bcombos = [(fam, d) for fam in ('real', 'log', 'vit') for d in ('float64', 'float32')]
+        bcases = [c for cs in pmap(drive_binade, bcombos, procs=len(bcombos), chunksize=1) for c in cs]
+        o.extra['binade_cases'] = len(bcases)
+        cases += bcases
         verdicts, st, tr, _ = judge_batch(work / 'judge', 'Trace_Semiring', cases, per_shard_min=300)
         o.states += st
         o.transitions += tr
